@@ -27,6 +27,26 @@ def Call.isOverride : Call → Bool
   | .setCellFrom _ | .setPositionsFromDump _ | .setCharges _ => true
   | _ => false
 
+/-! ### the block each kind of call belongs to -/
+theorem stage_isLoad {x : Call} (h : x.isLoad = true) : stage x = 0 := by cases x <;> simp [Call.isLoad] at h <;> rfl
+theorem stage_isSetCharges {x : Call} (h : x.isSetCharges = true) : stage x = 3 := by
+  cases x <;> simp [Call.isSetCharges] at h <;> rfl
+theorem stage_isReplicate {x : Call} (h : x.isReplicate = true) : stage x = 4 := by
+  cases x <;> simp [Call.isReplicate] at h <;> rfl
+theorem stage_isMic {x : Call} (h : x.isMic = true) : stage x = 5 := by cases x <;> simp [Call.isMic] at h <;> rfl
+theorem stage_isAssignPair {x : Call} (h : x.isAssignPair = true) : stage x = 6 := by
+  cases x <;> simp [Call.isAssignPair] at h <;> rfl
+theorem stage_isSearchBlock {x : Call} (h : x.isSearchBlock = true) : stage x = 7 := by
+  cases x <;> simp [Call.isSearchBlock] at h <;> rfl
+theorem stage_isLoadPattern {x : Call} (h : x.isLoadPattern = true) : stage x = 7 := by
+  cases x <;> simp [Call.isLoadPattern] at h <;> rfl
+theorem stage_isFind {x : Call} (h : x.isFind = true) : stage x = 7 := by cases x <;> simp [Call.isFind] at h <;> rfl
+theorem stage_isReplace {x : Call} (h : x.isReplace = true) : stage x = 7 := by
+  cases x <;> simp [Call.isReplace] at h <;> rfl
+theorem stage_isSave {x : Call} (h : x.isSave = true) : stage x = 9 := by cases x <;> simp [Call.isSave] at h <;> rfl
+theorem stage_isOverride {x : Call} (h : x.isOverride = true) : 1 ≤ stage x ∧ stage x ≤ 3 := by
+  cases x <;> simp [Call.isOverride] at h <;> simp [stage]
+
 /-- the first call: by suffix class, `Atoms.load` or the ASE reader, on the input path -/
 def firstCall (o : Options) : Call := if o.inputNative then .load o.input else .loadAse o.input
 /-- the last call: by suffix class, `Atoms.save` or the ASE writer, on the output path -/
@@ -76,9 +96,9 @@ theorem cli_first_last (o : Options) (c : Option CellInfo) (cs : List Call) (h :
     have : seg o c 9 = [lastCall o] := by
       simp only [seg, saveSeg, lastCall]; split <;> rfl
     simp only [planCalls, this, List.append_assoc]
-  · rw [filter_planCalls (k := 0) (by intro x hx; cases x <;> simp_all [Call.isLoad, stage])]
+  · rw [filter_planCalls (k := 0) (fun _ => stage_isLoad)]
     simp only [seg, loadSeg, firstCall]; split <;> rfl
-  · rw [filter_planCalls (k := 9) (by intro x hx; cases x <;> simp_all [Call.isSave, stage])]
+  · rw [filter_planCalls (k := 9) (fun _ => stage_isSave)]
     simp only [seg, saveSeg, lastCall]; split <;> rfl
 
 private theorem before_of_stage {o : Options} {c : Option CellInfo} {p q : Call → Bool} (a b : Nat)
@@ -103,17 +123,13 @@ theorem cli_order (o : Options) (c : Option CellInfo) (cs : List Call) (h : plan
     ∧ Before cs Call.isAssignPair Call.isSearchBlock
     ∧ Before cs Call.isSearchBlock Call.isSave := by
   obtain ⟨_, rfl⟩ := plan_ok h
-  have hload : ∀ x, Call.isLoad x = true → stage x = 0 := by intro x hx; cases x <;> simp_all [Call.isLoad, stage]
-  have hrep : ∀ x, Call.isReplicate x = true → stage x = 4 := by
-    intro x hx; cases x <;> simp_all [Call.isReplicate, stage]
-  have hmic : ∀ x, Call.isMic x = true → stage x = 5 := by intro x hx; cases x <;> simp_all [Call.isMic, stage]
-  have hpp : ∀ x, Call.isAssignPair x = true → stage x = 6 := by
-    intro x hx; cases x <;> simp_all [Call.isAssignPair, stage]
-  have hsb : ∀ x, Call.isSearchBlock x = true → stage x = 7 := by
-    intro x hx; cases x <;> simp_all [Call.isSearchBlock, stage]
-  have hsave : ∀ x, Call.isSave x = true → stage x = 9 := by intro x hx; cases x <;> simp_all [Call.isSave, stage]
-  have hov : ∀ x, Call.isOverride x = true → 1 ≤ stage x ∧ stage x ≤ 3 := by
-    intro x hx; cases x <;> simp_all [Call.isOverride, stage]
+  have hload : ∀ x, Call.isLoad x = true → stage x = 0 := fun _ => stage_isLoad
+  have hrep : ∀ x, Call.isReplicate x = true → stage x = 4 := fun _ => stage_isReplicate
+  have hmic : ∀ x, Call.isMic x = true → stage x = 5 := fun _ => stage_isMic
+  have hpp : ∀ x, Call.isAssignPair x = true → stage x = 6 := fun _ => stage_isAssignPair
+  have hsb : ∀ x, Call.isSearchBlock x = true → stage x = 7 := fun _ => stage_isSearchBlock
+  have hsave : ∀ x, Call.isSave x = true → stage x = 9 := fun _ => stage_isSave
+  have hov : ∀ x, Call.isOverride x = true → 1 ≤ stage x ∧ stage x ≤ 3 := fun _ => stage_isOverride
   refine ⟨?_, ?_, ?_, before_of_stage 4 5 hrep hmic (by decide), before_of_stage 4 6 hrep hpp (by decide),
     before_of_stage 5 6 hmic hpp (by decide), before_of_stage 4 7 hrep hsb (by decide),
     before_of_stage 5 7 hmic hsb (by decide), before_of_stage 6 7 hpp hsb (by decide),
@@ -132,7 +148,7 @@ theorem cli_order (o : Options) (c : Option CellInfo) (cs : List Call) (h : plan
 theorem search_block (o : Options) (c : Option CellInfo) (cs : List Call) (h : plan o c = .ok cs) :
     cs.filter Call.isSearchBlock = findSeg o := by
   obtain ⟨_, rfl⟩ := plan_ok h
-  rw [filter_planCalls (k := 7) (by intro x hx; cases x <;> simp_all [Call.isSearchBlock, stage])]
+  rw [filter_planCalls (k := 7) (fun _ => stage_isSearchBlock)]
   simp only [seg]
   apply List.filter_eq_self.mpr
   intro a ha
@@ -155,7 +171,7 @@ theorem cli_find_replace (o : Options) (c : Option CellInfo) (cs : List Call) (h
   refine ⟨?_, ?_, ?_⟩
   · constructor
     · rintro ⟨x, hx, hfx⟩
-      have hs : stage x = 7 := by cases x <;> simp_all [Call.isFind, Call.isReplace, stage]
+      have hs : stage x = 7 := hfx.elim stage_isFind stage_isReplace
       have hm := mem_planCalls.mp hx
       rw [hs] at hm
       simp only [seg, findSeg] at hm
@@ -176,10 +192,10 @@ theorem cli_find_replace (o : Options) (c : Option CellInfo) (cs : List Call) (h
         | some r =>
           refine ⟨.replace o.atol o.hints o.replaceFraction, mem_planCalls.mpr ?_, Or.inr rfl⟩
           simp [stage, seg, findSeg, hfp, hr]
-  · rw [filter_planCalls (k := 7) (by intro x hx; cases x <;> simp_all [Call.isReplace, stage])]
+  · rw [filter_planCalls (k := 7) (fun _ => stage_isReplace)]
     simp only [seg, findSeg]
     cases o.findPath <;> cases o.replacePath <;> simp [Call.isReplace]
-  · rw [filter_planCalls (k := 7) (by intro x hx; cases x <;> simp_all [Call.isFind, stage])]
+  · rw [filter_planCalls (k := 7) (fun _ => stage_isFind)]
     simp only [seg, findSeg]
     cases o.findPath <;> cases o.replacePath <;> simp [Call.isFind]
 
@@ -206,8 +222,15 @@ theorem cli_find_only (o : Options) (c : Option CellInfo) (cs : List Call) (h : 
       simp only [List.mem_append, List.mem_singleton] at hx
       rcases hx with hx | hx | hx | hx | hx | hx | hx | hx
       all_goals first | (right; exact hx) | (left; rw [seg_stage hx]; decide)
+    clear hx
     rcases hs with hs | hs
-    · cases x <;> simp_all [Call.isFind, Call.isReplace, stage]
+    · constructor
+      · cases hfx : x.isFind with
+        | false => rfl
+        | true => have := stage_isFind hfx; omega
+      · cases hfx : x.isReplace with
+        | false => rfl
+        | true => have := stage_isReplace hfx; omega
     · subst hs; exact ⟨rfl, rfl⟩
   · intro y hy hcs
     simp only [List.mem_append, List.mem_singleton] at hy
@@ -217,5 +240,253 @@ theorem cli_find_only (o : Options) (c : Option CellInfo) (cs : List Call) (h : 
       | none => rw [hfe] at hy; simp at hy
       | some e => rw [hfe] at hy; simp at hy; subst hy; simp
     · subst hy; unfold lastCall at hcs; split at hcs <;> simp [Call.changesStructure] at hcs
+
+/-! ## every documented option reaches the call it names
+
+  Uniform shape: the sub-list of calls of the kind in question is exactly the one call carrying the option's value
+  (so the value arrives, arrives once, and no other call of that kind is made), or empty when the option is absent. -/
+
+/-- `--atol` is the `atol=` argument of the search that is performed (find or replace), whenever there is one -/
+theorem opt_atol_reaches (o : Options) (c : Option CellInfo) (cs : List Call) (h : plan o c = .ok cs) :
+    (∀ a hs, Call.find a hs ∈ cs → a = o.atol) ∧ (∀ a hs f, Call.replace a hs f ∈ cs → a = o.atol)
+    ∧ (o.findPath.isSome = true → ∃ x ∈ cs, x = .find o.atol o.hints ∨ x = .replace o.atol o.hints o.replaceFraction) := by
+  obtain ⟨hfe, hrep, hfind⟩ := cli_find_replace o c cs h
+  refine ⟨?_, ?_, ?_⟩
+  · intro a hs hm
+    have : Call.find a hs ∈ cs.filter Call.isFind := List.mem_filter.mpr ⟨hm, rfl⟩
+    rw [hfind] at this
+    split at this <;> simp at this
+    exact this.1
+  · intro a hs f hm
+    have : Call.replace a hs f ∈ cs.filter Call.isReplace := List.mem_filter.mpr ⟨hm, rfl⟩
+    rw [hrep] at this
+    split at this <;> simp at this
+    exact this.1
+  · intro hf
+    cases hr : o.replacePath with
+    | none =>
+      have : Call.find o.atol o.hints ∈ cs.filter Call.isFind := by rw [hfind]; simp [hf, hr]
+      exact ⟨_, (List.mem_filter.mp this).1, Or.inl rfl⟩
+    | some r =>
+      have : Call.replace o.atol o.hints o.replaceFraction ∈ cs.filter Call.isReplace := by rw [hrep]; simp [hf, hr]
+      exact ⟨_, (List.mem_filter.mp this).1, Or.inr rfl⟩
+
+/-- `-p / --replace-fraction` is the `replace_fraction=` argument of the replace -/
+theorem opt_fraction_reaches (o : Options) (c : Option CellInfo) (cs : List Call) (h : plan o c = .ok cs) :
+    (∀ a hs f, Call.replace a hs f ∈ cs → f = o.replaceFraction)
+    ∧ (o.findPath.isSome = true → o.replacePath.isSome = true →
+        cs.filter Call.isReplace = [.replace o.atol o.hints o.replaceFraction]) := by
+  obtain ⟨_, hrep, _⟩ := cli_find_replace o c cs h
+  refine ⟨?_, ?_⟩
+  · intro a hs f hm
+    have : Call.replace a hs f ∈ cs.filter Call.isReplace := List.mem_filter.mpr ⟨hm, rfl⟩
+    rw [hrep] at this
+    split at this <;> simp at this
+    exact this.2.2
+  · intro hf hr; rw [hrep]; simp [hf, hr]
+
+/-- `-ap1 / -ap2 / -op` are the three hint arguments of the search that is performed — in find-only mode too -/
+theorem opt_hints_reach (o : Options) (c : Option CellInfo) (cs : List Call) (h : plan o c = .ok cs) :
+    (∀ a hs, Call.find a hs ∈ cs → hs = o.hints) ∧ (∀ a hs f, Call.replace a hs f ∈ cs → hs = o.hints)
+    ∧ (o.findPath.isSome = true → o.replacePath = none → cs.filter Call.isFind = [.find o.atol o.hints]) := by
+  obtain ⟨_, hrep, hfind⟩ := cli_find_replace o c cs h
+  refine ⟨?_, ?_, ?_⟩
+  · intro a hs hm
+    have : Call.find a hs ∈ cs.filter Call.isFind := List.mem_filter.mpr ⟨hm, rfl⟩
+    rw [hfind] at this
+    split at this <;> simp at this
+    exact this.2
+  · intro a hs f hm
+    have : Call.replace a hs f ∈ cs.filter Call.isReplace := List.mem_filter.mpr ⟨hm, rfl⟩
+    rw [hrep] at this
+    split at this <;> simp at this
+    exact this.2.1
+  · intro hf hr; rw [hfind]; simp [hf, hr]
+
+/-- the find and replace paths are loaded (in this order) and nothing else is loaded as a pattern -/
+theorem opt_patterns_reach (o : Options) (c : Option CellInfo) (cs : List Call) (h : plan o c = .ok cs) :
+    cs.filter Call.isLoadPattern =
+      (match o.findPath, o.replacePath with
+       | some f, some r => [.loadPattern f, .loadPattern r]
+       | some f, none => [.loadPattern f]
+       | none, _ => []) := by
+  obtain ⟨_, rfl⟩ := plan_ok h
+  rw [filter_planCalls (k := 7) (fun _ => stage_isLoadPattern)]
+  simp only [seg, findSeg]
+  cases o.findPath <;> cases o.replacePath <;> simp [Call.isLoadPattern]
+
+/-- `--replicate` is the argument of the one `replicate` call -/
+theorem opt_replicate_reaches (o : Options) (c : Option CellInfo) (cs : List Call) (h : plan o c = .ok cs) :
+    cs.filter Call.isReplicate = (match o.replicate with | some d => [.replicate d] | none => []) := by
+  obtain ⟨_, rfl⟩ := plan_ok h
+  rw [filter_planCalls (k := 4) (fun _ => stage_isReplicate)]
+  simp only [seg, replSeg]
+  cases o.replicate <;> simp [Call.isReplicate]
+
+/-- `--mic` reaches the minimum-image replication: on an orthorhombic cell the one call of that kind replicates by
+    `ceil(2·mic / aᵢ)` of the cell as it is after `--replicate`; on any other cell only the warning is issued. -/
+theorem opt_mic_reaches (o : Options) (c : Option CellInfo) (cs : List Call) (h : plan o c = .ok cs) :
+    cs.filter Call.isMic =
+      (match o.mic, c with
+       | some m, some ci =>
+         if ci.ortho then [.micReplicate (micDims m (scaleDiag ci.diag o.replicate))] else [.micSkippedNotOrtho]
+       | _, _ => []) := by
+  obtain ⟨_, rfl⟩ := plan_ok h
+  rw [filter_planCalls (k := 5) (fun _ => stage_isMic)]
+  simp only [seg, micSeg]
+  cases o.mic <;> cases c <;> simp
+  split <;> simp [Call.isMic]
+
+/-- `--pp` switches the pair-parameter assignment on -/
+theorem opt_pp_reaches (o : Options) (c : Option CellInfo) (cs : List Call) (h : plan o c = .ok cs) :
+    cs.filter Call.isAssignPair = (if o.pp then [.assignPair] else []) := by
+  obtain ⟨_, rfl⟩ := plan_ok h
+  rw [filter_planCalls (k := 6) (fun _ => stage_isAssignPair)]
+  simp only [seg, ppSeg]
+  cases o.pp <;> simp [Call.isAssignPair]
+
+/-- `-q / --chargefile` is what the charges are set from, and that happens before any replication (so the file
+    lists one charge per atom of the input, not of the super-cell) -/
+theorem opt_charges_reach (o : Options) (c : Option CellInfo) (cs : List Call) (h : plan o c = .ok cs) :
+    cs.filter Call.isSetCharges = (match o.chargefile with | some f => [.setCharges f] | none => [])
+    ∧ Before cs Call.isSetCharges Call.isReplicate ∧ Before cs Call.isSetCharges Call.isMic := by
+  obtain ⟨_, rfl⟩ := plan_ok h
+  refine ⟨?_, before_of_stage 3 4 (fun _ => stage_isSetCharges) (fun _ => stage_isReplicate) (by decide),
+    before_of_stage 3 5 (fun _ => stage_isSetCharges) (fun _ => stage_isMic) (by decide)⟩
+  rw [filter_planCalls (k := 3) (fun _ => stage_isSetCharges)]
+  simp only [seg, chargeSeg]
+  cases o.chargefile <;> simp [Call.isSetCharges]
+
+/-! ## the minimum-image factors -/
+
+/-- **mic_dim_spec.**  For a positive cell length `a`, `micDim mic a` is the least integer `n` with `n·a ≥ 2·mic`;
+    it is at least 1 for a positive cutoff. -/
+theorem mic_dim_spec (mic a : Rat) (ha : 0 < a) :
+    2 * mic ≤ (micDim mic a : Rat) * a
+    ∧ (∀ n : Int, 2 * mic ≤ (n : Rat) * a → micDim mic a ≤ n)
+    ∧ (0 < mic → 1 ≤ micDim mic a) := by
+  unfold micDim
+  refine ⟨?_, ?_, ?_⟩
+  · exact (rat_div_le_iff ha).mp Rat.le_ceil
+  · intro n hn
+    exact Rat.ceil_le_iff.mpr ((rat_div_le_iff ha).mpr hn)
+  · intro hm
+    have h0 : ((0 : Int) : Rat) < 2 * mic / a := by
+      rw [Rat.lt_div_iff ha]
+      have : (0 : Rat) < 2 * mic := Rat.mul_pos (by decide) hm
+      simpa using this
+    have := Rat.lt_ceil_iff.mpr h0
+    omega
+
+/-- **mic_dims_spec.**  On a cell with positive diagonal `(a₁,a₂,a₃)` each of the three factors is the least integer
+    `nᵢ` with `nᵢ·aᵢ ≥ 2·mic` (so the replicated cell is at least twice the cutoff wide in every direction and no
+    smaller super-cell is), and every factor is ≥ 1 when `mic > 0`. -/
+theorem mic_dims_spec (mic : Rat) (d : Rat × Rat × Rat) (h1 : 0 < d.1) (h2 : 0 < d.2.1) (h3 : 0 < d.2.2) :
+    (2 * mic ≤ ((micDims mic d).1 : Rat) * d.1 ∧ (∀ n : Int, 2 * mic ≤ (n : Rat) * d.1 → (micDims mic d).1 ≤ n))
+    ∧ (2 * mic ≤ ((micDims mic d).2.1 : Rat) * d.2.1
+        ∧ (∀ n : Int, 2 * mic ≤ (n : Rat) * d.2.1 → (micDims mic d).2.1 ≤ n))
+    ∧ (2 * mic ≤ ((micDims mic d).2.2 : Rat) * d.2.2
+        ∧ (∀ n : Int, 2 * mic ≤ (n : Rat) * d.2.2 → (micDims mic d).2.2 ≤ n))
+    ∧ (0 < mic → 1 ≤ (micDims mic d).1 ∧ 1 ≤ (micDims mic d).2.1 ∧ 1 ≤ (micDims mic d).2.2) := by
+  have a := mic_dim_spec mic d.1 h1
+  have b := mic_dim_spec mic d.2.1 h2
+  have e := mic_dim_spec mic d.2.2 h3
+  exact ⟨⟨a.1, a.2.1⟩, ⟨b.1, b.2.1⟩, ⟨e.1, e.2.1⟩, fun hm => ⟨a.2.2 hm, b.2.2 hm, e.2.2 hm⟩⟩
+
+/-- the factors the plan actually passes satisfy `mic_dims_spec`: an accepted run with `--mic` on an orthorhombic
+    cell has a positive diagonal -/
+theorem plan_mic_diag_pos (o : Options) (ci : CellInfo) (m : Rat) (cs : List Call)
+    (h : plan o (some ci) = .ok cs) (hm : o.mic = some m) (ho : ci.ortho = true) :
+    0 < (scaleDiag ci.diag o.replicate).1 ∧ 0 < (scaleDiag ci.diag o.replicate).2.1
+      ∧ 0 < (scaleDiag ci.diag o.replicate).2.2 :=
+  ((plan_ok_iff o (some ci)).mp ⟨cs, h⟩).2 ci m rfl hm ho
+
+/-! ## the specification in one statement -/
+
+/-- **cli_plan_spec.**  For ALL option records and cells on which the run is accepted:
+    first call = load of the input, last call = save of the output, each exactly once; the order
+    overrides → `--replicate` → minimum-image replication → pair parameters → find/replace → save;
+    a search happens iff a find path is given, a replace iff both paths are given (with the option's tolerance, hints
+    and fraction), a find-only run searches with the option's tolerance and hints and then only (optionally) the
+    framework-element step precedes the save. -/
+theorem cli_plan_spec (o : Options) (c : Option CellInfo) (cs : List Call) (h : plan o c = .ok cs) :
+    ((∃ rest, cs = firstCall o :: rest) ∧ (∃ init, cs = init ++ [lastCall o])
+      ∧ cs.filter Call.isLoad = [firstCall o] ∧ cs.filter Call.isSave = [lastCall o])
+    ∧ (Before cs Call.isReplicate Call.isMic ∧ Before cs Call.isMic Call.isAssignPair
+        ∧ Before cs Call.isReplicate Call.isAssignPair ∧ Before cs Call.isAssignPair Call.isSearchBlock
+        ∧ Before cs Call.isReplicate Call.isSearchBlock ∧ Before cs Call.isMic Call.isSearchBlock
+        ∧ Before cs Call.isSearchBlock Call.isSave)
+    ∧ ((∃ x ∈ cs, x.isFind = true ∨ x.isReplace = true) ↔ o.findPath.isSome = true)
+    ∧ cs.filter Call.isReplace =
+        (if o.findPath.isSome ∧ o.replacePath.isSome then [.replace o.atol o.hints o.replaceFraction] else [])
+    ∧ cs.filter Call.isFind =
+        (if o.findPath.isSome ∧ o.replacePath = none then [.find o.atol o.hints] else [])
+    ∧ (o.findPath.isSome = true → o.replacePath = none →
+        ∃ pre, cs = pre ++ Call.find o.atol o.hints :: (fwSeg o ++ [lastCall o])
+          ∧ (∀ x ∈ pre, x.isFind = false ∧ x.isReplace = false)
+          ∧ (∀ y ∈ fwSeg o ++ [lastCall o], y.changesStructure = true →
+                o.frameworkElement.isSome = true ∧ y = .setFrameworkElement (o.frameworkElement.getD ""))) := by
+  obtain ⟨_, _, _, h4, h5, h6, h7, h8, h9, h10⟩ := cli_order o c cs h
+  obtain ⟨f1, f2, f3⟩ := cli_find_replace o c cs h
+  exact ⟨cli_first_last o c cs h, ⟨h4, h6, h5, h9, h7, h8, h10⟩, f1, f2, f3, cli_find_only o c cs h⟩
+
+/-! ## non-vacuity: concrete option records that satisfy the guards -/
+
+instance decEqPlanResult : DecidableEq (Except Err (List Call)) := fun a b =>
+  match a, b with
+  | .ok x, .ok y => if h : x = y then isTrue (by rw [h]) else isFalse (by intro e; cases e; exact h rfl)
+  | .error x, .error y => if h : x = y then isTrue (by rw [h]) else isFalse (by intro e; cases e; exact h rfl)
+  | .ok _, .error _ => isFalse (by intro e; cases e)
+  | .error _, .ok _ => isFalse (by intro e; cases e)
+
+/-- everything at once: charges, `--replicate 2 1 1`, `--mic 6`, `--pp`, find + replace with non-default tolerance,
+    hints (index 0 included) and fraction -/
+def exFull : Options :=
+  { input := "in.cif", inputNative := true, output := "out.lmpdat", outputNative := true,
+    findPath := some "p.cml", replacePath := some "r.cml", replaceFraction := 1 / 2, atol := 1 / 10,
+    hints := ⟨some 0, some 2, some 1⟩, chargefile := some "q.txt", replicate := some (2, 1, 1), mic := some 6,
+    pp := true }
+
+def exCell : CellInfo := ⟨(5, 10, 25 / 2), true⟩
+
+example : plan exFull (some exCell) = .ok
+    [.load "in.cif", .setCharges "q.txt", .replicate (2, 1, 1), .micReplicate (2, 2, 1), .assignPair,
+     .loadPattern "p.cml", .loadPattern "r.cml", .replace (1 / 10) ⟨some 0, some 2, some 1⟩ (1 / 2),
+     .save "out.lmpdat"] := by decide +kernel
+
+/-- find-only, with hints and a framework element, ASE on both ends, non-orthorhombic cell -/
+def exFindOnly : Options :=
+  { input := "in.xyz", inputNative := false, output := "out.xyz", outputNative := false,
+    findPath := some "p.cml", atol := 1 / 10, hints := ⟨some 0, none, none⟩, extractUc := some "uc.lmpdat",
+    dumpPath := some "d.dump", mic := some 6, frameworkElement := some "C" }
+
+example : plan exFindOnly (some ⟨(5, 10, 25 / 2), false⟩) = .ok
+    [.loadAse "in.xyz", .setCellFrom "uc.lmpdat", .setPositionsFromDump "d.dump", .micSkippedNotOrtho,
+     .loadPattern "p.cml", .find (1 / 10) ⟨some 0, none, none⟩, .setFrameworkElement "C", .saveAse "out.xyz"] := by
+  decide +kernel
+
+-- the guards of `cli_find_only` / `opt_hints_reach` are satisfiable
+example : exFindOnly.findPath.isSome = true ∧ exFindOnly.replacePath = none := by decide
+
+/-- replace without find: only the warning, the structure is saved as loaded -/
+example : plan { input := "a.lmpdat", inputNative := true, output := "b.cif", outputNative := true,
+                 replacePath := some "r.cml" } none
+    = .ok [.load "a.lmpdat", .warnReplaceWithoutFind, .save "b.cif"] := by decide +kernel
+
+/-- rejected runs: replication without a cell; minimum image on a degenerate cell -/
+example : plan { input := "a.cml", inputNative := true, output := "b.cif", outputNative := true,
+                 replicate := some (2, 1, 1) } none = .error .nocell := by decide +kernel
+example : plan { exFull with replicate := some (0, 1, 1) } (some exCell) = .error .domain := by decide +kernel
+
+/-- minimum-image factors: `mic = 6` on lengths `(10, 10, 12.5)` gives `(2, 2, 1)`; exactly `2·mic = a` gives 1;
+    the guards of `mic_dims_spec` hold for this cell -/
+example : micDims 6 (10, 10, 25 / 2) = (2, 2, 1) := by decide +kernel
+example : micDims 5 (10, 10, 25 / 2) = (1, 1, 1) := by decide +kernel
+example : (0 : Rat) < (10 : Rat) ∧ (0 : Rat) < (25 / 2 : Rat) := by decide +kernel
+
+/-- suffix dispatch as `pathlib` does it -/
+example : inputIsNative "/tmp/x.y/in.cif" = true ∧ inputIsNative "/tmp/x.cif/in.xyz" = false
+    ∧ outputIsNative "out.mol" = true ∧ outputIsNative "out.cml" = false ∧ inputIsNative ".cif" = false := by
+  decide +kernel
 
 end Mofun.Cli
